@@ -39,6 +39,7 @@ type acctRec struct {
 	Calling string `json:"calling"`
 	IP      string `json:"ip"`
 	Cause   uint32 `json:"cause"`
+	OK      bool   `json:"ok"` // answered with Accounting-Response (false: scripted failure, answered with a wrong code)
 }
 
 func (r acctRec) String() string {
@@ -46,7 +47,11 @@ func (r acctRec) String() string {
 	if t == "" {
 		t = fmt.Sprintf("type%d", r.Type)
 	}
-	return fmt.Sprintf("#%d %s(sid=%s user=%s calling=%s ip=%s cause=%d)", r.Seq, t, r.SID, r.User, r.Calling, r.IP, r.Cause)
+	a := ""
+	if !r.OK {
+		a = " REFUSED"
+	}
+	return fmt.Sprintf("#%d %s(sid=%s user=%s calling=%s ip=%s cause=%d)%s", r.Seq, t, r.SID, r.User, r.Calling, r.IP, r.Cause, a)
 }
 
 type authScript struct {
@@ -64,6 +69,7 @@ type radServer struct {
 	defAuth  authScript
 	log      []acctRec
 	authReqs []string // User-Names of Access-Requests received
+	failStop int      // the next n Accounting-Stop requests are answered with a wrong code (the client reports an error at once)
 	bad      []string
 	// parkStop: when non-nil the reply to the next Accounting-Request of type Stop is held until the channel is closed
 	// (only used outside bubbles; not used by the generated tiers)
@@ -117,6 +123,13 @@ func (s *radServer) reset() {
 	s.log = nil
 	s.authReqs = nil
 	s.bad = nil
+	s.failStop = 0
+	s.mu.Unlock()
+}
+
+func (s *radServer) failNextStops(n int) {
+	s.mu.Lock()
+	s.failStop = n
 	s.mu.Unlock()
 }
 
@@ -219,9 +232,18 @@ func (s *radServer) serveAcct() {
 		r.Cause = uint32(rfc2866.AcctTerminateCause_Get(req))
 		s.mu.Lock()
 		r.Seq = len(s.log)
+		r.OK = true
+		if r.Type == acctStop && s.failStop > 0 {
+			s.failStop--
+			r.OK = false
+		}
 		s.log = append(s.log, r)
 		s.mu.Unlock()
-		b, err := req.Response(radius.CodeAccountingResponse).Encode()
+		code := radius.CodeAccountingResponse
+		if !r.OK {
+			code = radius.CodeAccessReject // authentic reply, wrong code: SendAccounting fails immediately
+		}
+		b, err := req.Response(code).Encode()
 		if err != nil {
 			continue
 		}
@@ -258,6 +280,9 @@ func acctOracle(res *result, tc *tcase, recs []acctRec, ended func(r acctRec) bo
 			c = &cnt{first: r}
 			by[r.SID] = c
 			order = append(order, r.SID)
+		}
+		if !r.OK {
+			continue // a refused record was not delivered; a later retry of it is not a duplicate
 		}
 		switch r.Type {
 		case acctStart:
